@@ -3,6 +3,7 @@ import petl as etl
 from hypothesis import strategies as st
 
 from pv import gen, codec
+from pv import scale
 from pv import catgen
 from pv.core import Sub, Fail, exc_fail
 from pv.order import ref_cmp
@@ -79,6 +80,9 @@ def join_case(draw, tier):
     # squaring up would be sorted as None by the harness and as `missing` by the operator)
     c["presorted"] = draw(st.integers(0, 3)) == 0
     c["forms"] = [draw(st.sampled_from(["lists", "lists", "lists"] + catgen.FORMS)) for _ in range(2)]
+    c["blowup"] = scale.derive(c, odds=25, sizes=[130, 300, 1030, 1100], wide=False)
+    c["blowside"] = draw(st.integers(0, 1))
+    c["big_buffersize"] = draw(st.sampled_from([None, 1000, 7, "n/300", "n/130", "n/2"]))
     # self-join: ONE table object is both inputs, joined on two different fields of it (boss/id style)
     if len(lh) >= 2 and draw(st.integers(0, 5)) == 0:
         c["selfjoin"] = True
@@ -91,6 +95,19 @@ def join_case(draw, tier):
 
 
 def check_join(case, ctx):
+    if case.get("blowup") and not case.get("selfjoin"):
+        # at scale: ONE side blown up (rows repeated, or one row a thousand times and the rest after it), the other kept to
+        # a few rows so that the result stays linear; chunk sizes that give a few hundred chunk files
+        b = dict(case["blowup"], wide=0)
+        side = case.get("blowside", 0)
+        big = scale.apply(case["left" if side == 0 else "right"], b)
+        small = [list(r) for r in case["right" if side == 0 else "left"][:5]]
+        nb = len(big) - 1
+        bs = case.get("big_buffersize")
+        bs = bs if not isinstance(bs, str) else max(1, nb // int(bs.split("/")[1]))
+        case = dict(case, left=big if side == 0 else small, right=small if side == 0 else big, buffersize=bs,
+                    upstream=["none", "none"], presorted=False, forms=["lists", "lists"])
+        scale.label(ctx, b)
     fn, L, Rt = case["fn"], case["left"], case["right"]
     kind = KINDS[fn]
     kw = {k: case[k] for k in ("key", "lkey", "rkey", "missing", "lprefix", "rprefix") if k in case}
